@@ -200,6 +200,13 @@ def gemini(ctx, base, logi, reqs, impls, metas):
             want_x = [frac(x) for x in st["gate_zone"].x_positions][off::2][2 + 7 * b: 2 + 7 * (b + 1)]
             if [frac(x) for x in g.x_positions] != want_x:
                 ctx.fail(case, f"G{side}{b}_block columns are not the documented columns of the gate zone")
+    # the two logical blocks of each side together are GL_blocks / GR_blocks (logical_cols * code_size columns)
+    for side in ("L", "R"):
+        whole = st[f"G{side}_blocks"]
+        parts = sites(st[f"G{side}0_block"]) + sites(st[f"G{side}1_block"])
+        if whole.shape != (ic["logical_cols"] * ic["code_size"], ic["logical_rows"]) or sorted(sites(whole)) != sorted(parts):
+            ctx.fail(case, f"G{side}_blocks (shape {whole.shape}) is not the union of its logical_cols = {ic['logical_cols']} "
+                           f"blocks of code_size x logical_rows sites")
     # left/right blocks pair up gate_spacing apart
     for b in (0, 1):
         lx = [frac(x) for x in st[f"GL{b}_block"].x_positions]
